@@ -43,7 +43,7 @@ func lagCases(r *vkit.Report) {
 	if actors < 1 {
 		actors = 1
 	}
-	trials := r.Scale(420, 1200) // per actor and case
+	trials := r.Scale(420, 1000) // per actor and case
 	r.Cases("lag", r.Scale(10, 10), 1, func(c *vkit.Case) {
 		var fires atomic.Int64
 		xtime.VerifSetHook(func(point string) {
